@@ -8,7 +8,7 @@ CLAIMED = {
    text="Every clause is a discharged obligation over the real AST of WindowGenerator: loop invariant with ghost yield sequence (cover, overlap, count, termination), "
         "generator contract used modularly by the valid/splicing/slice/tscale consumers, relational two-iteration obligation for splicing amplitudes; the same windows when another iteration over the same object runs between two yields (window counter havocked at every yield); all (ns, nswin, overlap), no bound.",
    note="Float division/ceil in __init__ and tscale read as real arithmetic (A-REAL, sound below 2^52); Hann complement identity assumed (A-SCIPY; the code asserts it itself). "
-        "A native box (bounded, not counted) cross-checks the engine against CPython.",
+        "A native box (bounded, not counted) cross-checks the engine against CPython. F-C17-3 (nwin from the raw unsigned NumPy arguments) was repaired; number types other than python ints are exercised by the bounded stand-in.",
    tech="AST->z3 VC generation, Hoare loop invariants, generator contracts (deductive)"),
  "C11": dict(cat="proof", ref="DESIGN.md 4/C11",
    text="Reader.open (flat + compressed branch), ns, rl, shape and OnlineReader.ns executed symbolically for every file size, channel count, item size, rate and announced duration: "
@@ -19,7 +19,7 @@ CLAIMED = {
    text="split_sync proved for a word array of any length: line k == bit k of the word for k=0..15 (integer div/mod arithmetic, complete over all 65536 words), 1-D and (n,1) inputs; "
         "fronts/rises/falls: soundness, polarity, order and completeness of the returned indices for 1-D and 2-D inputs along either axis; read_sync through the reader: digital layout (imec, nidq) and "
         "analog lines thresholded per channel after removing that channel's own floor (1 and 2 analog sync channels, with 0..2 auxiliary analog channels saved before them), and thresholded as they are when the floor removal is switched off (floor_percentile 0 / False / None); re-checks C09's channel-index / nidq calibration contracts it rests on.",
-   note="A-ENDIAN (asserted natively), A-NP-SPEC for unpackbits / where / diff, A-REAL for analog thresholds. Re-writes of split_sync outside the modelled NumPy subset degrade to the exhaustive native check of all 65536 words (bounded tier).",
+   note="A-ENDIAN (asserted natively), A-NP-SPEC for unpackbits / where / diff, A-REAL for analog thresholds. Re-writes of split_sync outside the modelled NumPy subset degrade to the exhaustive native check of all 65536 words (bounded tier). F-C10-1 (0/1 lines held as boolean / unsigned arrays lost their polarity) was repaired; those containers are exercised by the bounded stand-in.",
    tech="AST->z3 VC generation, index-function arrays, where() specification axioms (deductive)"),
  "C01": dict(cat="other", ref="DESIGN.md 4/C01",
    text="Reader.__getitem__/read/read_samples proved equal to NumPy indexing of the whole calibrated, geometry-ordered array for every selector shape (int, any slice incl. negative steps and out-of-range bounds, "
@@ -59,12 +59,12 @@ CLAIMED = {
  "C02": dict(cat="other", ref="DESIGN.md 4/C02",
    text="Ghost-file-system contracts: companion resolution for data / compressed / metadata paths under every combination of existing files; compress_file, decompress_file, decompress_to_scratch with a normal and an exceptional outcome of mtscomp: "
         "final names only ever carry complete files (also after an earlier failed attempt), sources removed only after their replacement is complete, a failed re-compression does not remove the header of a pair published earlier, lossless by D(C(b))=b; same shape through .bin and .cbin rests on C11's contracts of both branches of Reader.open (re-checked here). decompress_file(out=<another folder>, keep_original both ways) removes its own source and header only and leaves the files of another recording next to the output untouched; the metadata next to a scratch copy is the recording's own whatever the scratch folder held.",
-   note="mtscomp is external: assumed contract (A-MTSCOMP) validated natively: reader on .bin vs .cbin around chunk boundaries, byte round trip, failures injected at each chunk, fail-then-retry histories, UUID-named companions with both bands of a probe in one folder (bounded). Known finding F-C02-1 (negative steps on .cbin).",
+   note="mtscomp is external: assumed contract (A-MTSCOMP) validated natively: reader on .bin vs .cbin around chunk boundaries, byte round trip, failures injected at each chunk, fail-then-retry histories, UUID-named companions with both bands of a probe in one folder (bounded). Known finding F-C02-1 (negative steps on .cbin). Known finding F-C02-4: several sample indices at once (list / integer array / boolean mask / range) on a .cbin raise or return an empty array (no gather in mtscomp); the single NumPy-integer index was repaired (F-C02-3).",
    tech="AST->z3 VC generation over a ghost file system with exceptional post-conditions (deductive) + bounded native stand-in"),
  "C04": dict(cat="other", ref="DESIGN.md 4/C04",
    text="Contracts of every step of NP2Converter.process over the ghost file system: _prepare_files_NP24 (no-op on repeat, outputs never alias the input, channel lists = where(shank==s)+sync), check_NP24 (every window compared, flag only after the loop; the whole function through the interpreter: every exceptional way out leaves check_completed unset), _prepare_files_NP21 (forced / first run starts the LF output empty), "
         "epilogue order (original unlinked only after check_NP24 returned normally with both flags, and only when the whole recording - not just the first nsamples samples - was split and verified: F-C04-2, repaired), delete_NP24 guard, compress_NP24/NP21 through C02's compress_file incl. failures, early exits (an already split input is refused before any output is prepared, with or without overwrite; probes that are neither NP2.1 nor NP2.4 - NP1 generations, NP Ultra - are refused untouched), a flag left by an earlier call on the same converter object does not decide the next one, init_params reset; rests on C03's init_params contract (every sample is split and verified before the original goes). The LF output of a single-shank probe is never the original whatever the file is called; the deletion guard is stated against a (possibly compressed) original whose size on disk is unrelated to its sample count; output files hold nothing when the extraction starts; the reader kept after compress_NP21 reads as the one __init__ opened (F-C04-3 found this way and repaired).",
-   note="Histories are handled inductively (one guarded unlink of the original); interruptions = exceptions of external calls; real run histories on files (first/repeat/overwrite/corrupted split/failed verification then delete_NP24()/NP2.1/NP1) are a bounded stand-in. F-C04-1 (retry after partial folder creation) was repaired.",
+   note="Histories are handled inductively (one guarded unlink of the original); interruptions = exceptions of external calls; real run histories on files (first/repeat/overwrite/corrupted split/failed verification then delete_NP24()/NP2.1/NP1) are a bounded stand-in. F-C04-1 (retry after partial folder creation) was repaired. F-C04-3 (NP2.1 reader re-opened sorted after compression) was repaired.",
    tech="AST->z3 VC generation over a ghost file system, effect-log ordering obligations (deductive) + bounded histories"),
  "C13": dict(cat="other", ref="DESIGN.md 4/C13",
    text="extract_wfs_array proved with a loop invariant over the output stack for any number of spikes / channels / samples: wfs[i,c,t] == traces[neighbours[peak_i,c], sample_i - trough + t], padding neighbours read the NaN row, every read in bounds; "
